@@ -30,9 +30,22 @@ import (
 var hasExpand bool
 
 var (
-	verifDir = envOr("VERIF_DIR", "/verif")
+	verifDir = envOr("VERIF_DIR", selfDir())
 	goBin    = envOr("VERIF_GO", "go1.26.8")
 )
+
+// selfDir is the directory two levels above the executable (<verif>/bin/vcheck), falling back to
+// /verif.
+func selfDir() string {
+	if exe, err := os.Executable(); err == nil {
+		d := filepath.Dir(filepath.Dir(exe))
+		if _, err := os.Stat(filepath.Join(d, "sim", "go.mod")); err == nil {
+			return d
+		}
+	}
+
+	return "/verif"
+}
 
 func envOr(k, d string) string {
 	if v := os.Getenv(k); v != "" {
@@ -194,7 +207,7 @@ func getMeta(bin, id string) (*meta, error) {
 
 var (
 	panicRe = regexp.MustCompile(`(?m)^(panic: .*|fatal error: .*|WARNING: DATA RACE)$`)
-	frameRe = regexp.MustCompile(`(?m)^github\.com/scrapli/scrapligo/([^\s(]+(?:\([^)]*\))?[^\s(]*)\(`)
+	frameRe = regexp.MustCompile(`(?m)^\s*github\.com/scrapli/scrapligo/([^\s(]+(?:\([^)]*\))?[^\s(]*)\(`)
 )
 
 // crashSignature derives clause/site from the stderr of a dead worker.
@@ -212,13 +225,40 @@ func crashSignature(stderr string) (clause, site, detail string) {
 	clause = regexp.MustCompile(`\[recovered\].*`).ReplaceAllString(clause, "")
 	idx := strings.Index(stderr, m)
 	rest := stderr[idx:]
-	for _, fm := range frameRe.FindAllStringSubmatch(rest, -1) {
-		if strings.Contains(fm[1], "util/simhook") {
-			continue
-		}
-		site = fm[1]
+	firstFrame := func(txt string) string {
+		for _, fm := range frameRe.FindAllStringSubmatch(txt, -1) {
+			if strings.Contains(fm[1], "util/simhook") {
+				continue
+			}
 
-		break
+			return fm[1]
+		}
+
+		return ""
+	}
+	site = firstFrame(rest)
+	if clause == "data-race" {
+		// both access sites, sorted: first library frame of each of the two stacks
+		parts := strings.SplitN(rest, "\n\n", 3)
+		var sites []string
+		for i := 0; i < 2 && i < len(parts); i++ {
+			if f := firstFrame(parts[i]); f != "" {
+				sites = append(sites, f)
+			}
+		}
+		sort.Strings(sites)
+		site = strings.Join(sites, " <-> ")
+		// a race whose two accesses are both in harness code is harness trouble, not a violation
+		harness := 0
+		for i := 0; i < 2 && i < len(parts); i++ {
+			ls := strings.Split(parts[i], "\n")
+			if len(ls) > 1 && strings.HasPrefix(strings.TrimSpace(ls[1]), "verifsim/") {
+				harness++
+			}
+		}
+		if harness == 2 {
+			return "", "", ""
+		}
 	}
 	detail = rest
 	if len(detail) > 3000 {
@@ -766,7 +806,10 @@ func check(id, tier string) int {
 			rbin = filepath.Join(scratch, "sim.race.test")
 		}
 		note := ""
-		if i < 4 && f.scenario != nil {
+		if strings.Contains(f.tier, ":R") {
+			rf.Notes = "found by the free-running race leg: re-run by seed, not schedule-exact"
+			_ = writeReplay(path, rf)
+		} else if i < 4 && f.scenario != nil {
 			// confirm in a fresh process, then minimise
 			if s2, _, _, err := replayOnce(rbin, id, path); err != nil || s2 != sig {
 				note = fmt.Sprintf(" (replay in a fresh process ended in %q, err=%v)", s2, err)
